@@ -702,6 +702,13 @@ impl Terminal {
             if self.cursor.row == self.bottom_margin {
                 self.buffer.wrap(self.cursor.row);
                 self.scroll_up_in_region(1);
+
+                // scrolling a region that ends above the last row drops the
+                // wrap mark of the region's last row - restore it on the row
+                // we have just left, which is now one row up
+                if self.cursor.row > 0 {
+                    self.buffer.wrap(self.cursor.row - 1);
+                }
             } else if self.cursor.row < self.rows - 1 {
                 self.buffer.wrap(self.cursor.row);
                 self.do_move_cursor_to_row(self.cursor.row + 1);
